@@ -52,6 +52,9 @@ CHECKS = {
   "C08": dict(level="exploration", design="3.7, 4 (C08), 6",
       text="Exploration guided by the MxSession state space: every configuration (TLS 1.1-1.3, DTLS 1.0/1.2 incl. small path MTUs that fragment handshake messages, resumed, tickets, PSK, client auth, early data) x every stop point of its handshake x both roles x structure-aware and random mutations (byte flips, record / handshake / DTLS fragment header fields incl. later fragments that lie about message length and offset, truncation, garbage, injected records of every type up to 20000 bytes, records forged under the session keys with random handshake types and bodies, re-framed / duplicated / deleted / swapped handshake messages, replays, reflections, pairs of these) x continuation (more traffic, closure, timers, deletion), executed on the ASan + LSan + UBSan build with time limits. Alarms: sanitizer reports, leaks at process end, time-outs / loop guards, undocumented return values of matrixSslReceivedData. The universal quantifier over all byte strings is sampled, not exhausted - hence exploration.",
       technique="spec-guided exploration: MxSession stop points x mutation grammar on the sanitizer build; traces also validated against MxSession_Trace (reported, not alarmed)"),
+  "C19": dict(level="fault_enumeration", design="3.8, 4 (C19)",
+      text="Single-fault enumeration over the library's allocator: each scenario (7 version / key-exchange modes x client and server verifier x honest, defective-credential and defective-proof peers from the C04 generator, covering key loading, session creation, handshake, application data, closure, deletion) is first run to count its allocations (100 - 38000), then re-run with the k-th allocation failing - every k in the thorough tier, the first 12 plus an even spread plus a random sample in the quick tier - each run in its own process on the ASan/UBSan build with LeakSanitizer's leak check after all objects are deleted. Alarms: crash, sanitizer report, leak, hang, and any trace MxAuth_Trace rejects: under a fault a handshake may fail, but it may not complete with a verification step skipped (defective credentials / proofs never complete, a permissive callback must still be told a failure).",
+      technique="exhaustive single allocation-fault injection (Malloc/Calloc/Realloc redefined at build time) + sanitizers + trace validation against MxAuth_Trace (fault-lenient mode)"),
   "C05": dict(level="model_checking", design="3.6, 4 (C05)",
       text="MxName states the matching rule (exact case-insensitive match per kind, '*' for exactly one left-most label, CN only without supported SAN); TLC tabulates it over a universe of patterns x expected names and checks order independence, CN-only-without-SAN and one-label wildcards as invariants. Real leaf certificates with generated SAN lists (0-3 entries from a pool with wildcards in every position, partial wildcards, case variants, trailing dots, control characters, trailing/double/embedded NULs, e-mail, IP, URI entries; every order of sampled pairs/triples) x CN choices are run through matrixValidateCertsExt for each expected name of a grammar, and every verdict is validated by TLC against Match (soundness; completeness on names without trailing dot).",
       technique="TLA+ spec MxName checked by TLC + validation of the library's verdicts on generated certificates (MxName_Trace)"),
@@ -74,7 +77,9 @@ FRAME_NOTE = ("Trusted base: TLC; the driver's pinned entropy and clock wrappers
               "The count of REQUEST_RECV / REQUEST_SEND round trips is deliberately not compared; DTLS is out of scope of the property.")
 GARB_NOTE = ("Trusted base: the compilers' sanitizers; the driver's time limits and loop guards. A seeded sample (3200 episodes quick, 48000 thorough), not a proof; coverage-guided fuzzing is not used (libFuzzer is outside this technique family). "
              "Lines of these traces that MxSession_Trace does not explain are counted in the evidence, not alarmed: C06 / C15 judge sequence-level behaviour on curated input classes.")
-NOTES = {"C08": GARB_NOTE, "C18": FRAME_NOTE, "C07": NEGO_NOTE, "C16": DTLS_NOTE, "C14": RES_NOTE, "C04": AUTH_NOTE, "C05": NAME_NOTE, "C01": SESSION_NOTE, "C06": SESSION_NOTE, "C15": SESSION_NOTE, "C02": CHAN_NOTE, "C17": CHAN_NOTE, "C03": PKI_NOTE}
+FAULT_NOTE = ("Trusted base: the sanitizers; osdep_malloc.h's documented override of Malloc/Calloc/Realloc (no source change); the driver treats a key set whose loading failed as unusable, as an application would. "
+              "Single faults (and random pairs in the thorough tier); allocation failures inside libc / OpenSSL are not injected; multi-threaded scenarios are not covered.")
+NOTES = {"C19": FAULT_NOTE, "C08": GARB_NOTE, "C18": FRAME_NOTE, "C07": NEGO_NOTE, "C16": DTLS_NOTE, "C14": RES_NOTE, "C04": AUTH_NOTE, "C05": NAME_NOTE, "C01": SESSION_NOTE, "C06": SESSION_NOTE, "C15": SESSION_NOTE, "C02": CHAN_NOTE, "C17": CHAN_NOTE, "C03": PKI_NOTE}
 
 def main():
     hooks_commits = subprocess.run(["git", "-C", "/repo", "log", "--format=%h %s", "--grep=^verif:"], capture_output=True, text=True).stdout.strip().splitlines()
